@@ -1002,7 +1002,7 @@ class Media(productmd.common.MetadataBase):
 
     def serialize(self, parser):
         self.validate()
-        if not self.discnum and not self.totaldiscs:
+        if self.discnum is None and self.totaldiscs is None:
             return
         parser.add_section(self._section)
         parser.set(self._section, "discnum", str(int(self.discnum)))
